@@ -173,7 +173,13 @@ where
         last_eval = Some(better);
 
         if rounds > max_optimize_rounds {
-            break;
+            // the last pass was computed with the fee of the one before it: returning it
+            // would hand out a transaction whose body carries a fee other than the reported one
+            return Err(Error::CompileError(
+                tx3_tir::compile::Error::ConsistencyError(format!(
+                    "fee did not converge after {rounds} rounds"
+                )),
+            ));
         }
 
         rounds += 1;
